@@ -19,10 +19,13 @@ def equil(params, ns, pts):
     Returns:
         fs (Spectrum): Resulting frequency spectrum
 
+    Raises:
+        ValueError: If `params` does not contain the expected number of elements.
+
     Note:
         DFE methods internally apply make_extrap_func, so there is no need to make it extrapolate again.
     """
-    gamma = params[0]
+    gamma, = params
 
     xx = Numerics.default_grid(pts)
     phi = PhiManip.phi_1D(xx, gamma=gamma)
